@@ -1,5 +1,6 @@
 use super::error;
 use std::cmp;
+use std::collections::HashMap;
 use std::fmt;
 use std::ops;
 use xml_dom::{AsStringValue, ExpandedName, XmlNode};
@@ -12,9 +13,24 @@ pub struct Context {
     size: Vec<usize>,
     position: Vec<usize>,
     namespaces: Vec<(Option<String>, String)>,
+    predicates: HashMap<(usize, usize, usize, usize), bool>,
 }
 
 impl Context {
+    /// What a predicate of the running query gave for a context node, position and size.
+    pub(super) fn predicate(&self, key: &(usize, usize, usize, usize)) -> Option<bool> {
+        self.predicates.get(key).copied()
+    }
+
+    pub(super) fn set_predicate(&mut self, key: (usize, usize, usize, usize), value: bool) {
+        self.predicates.insert(key, value);
+    }
+
+    /// The answers belong to one query: the document may change until the next one.
+    pub(super) fn clear_predicates(&mut self) {
+        self.predicates.clear();
+    }
+
     pub fn get_position(&self) -> usize {
         *self.position.last().unwrap_or(&0)
     }
